@@ -48,6 +48,9 @@ def expected_from_tree(fs, root='/work/plt'):
                                 for k, w in enumerate(items[i + 1][2][:nw]):
                                     arr[k] = w
                                 cands.append(arr.reshape(shp + (nf,), order='F'))
+                            elif bn.bf.limit is not None and (i + 2 >= len(items)):
+                                # the file's length is itself damaged (symbolic): what follows the last FAB's words is opaque
+                                cands.append(None)
                             elif (i + 1 < len(items) and items[i + 1][1] == WD and (i + 2 >= len(items) or items[i + 2][1] == HB)) or \
                                     (i + 1 >= len(items)) or (items[i + 1][1] == HB):
                                 # the FAB ends (next FAB header, or end of file) before it holds the declared number of
